@@ -14,6 +14,7 @@
 package listener
 
 import (
+	"io"
 	"net"
 	"time"
 )
@@ -28,6 +29,12 @@ type DummyUDPConn struct {
 }
 
 func (dc *DummyUDPConn) Read(b []byte) (int, error) {
+	if len(dc.Buffer) == 0 {
+		// the datagram has been consumed: report end of stream, so that
+		// handlers that read until an error return
+		return 0, io.EOF
+	}
+
 	n := copy(b, dc.Buffer)
 	dc.Buffer = dc.Buffer[n:]
 	return n, nil
